@@ -1,3 +1,4 @@
+import GoRes.Driver.GetReq
 import GoRes.Driver.Wire
 import GoRes.Driver.Pat
 import GoRes.Driver.Mux
@@ -61,6 +62,7 @@ def stepLine (dom : String) (st : DState) (full : String) : DState × String :=
         | _ => true
       ({ st with idx := is }, m ++ "\t" ++ (if keep then s else "-") ++ "\t" ++ t)
     | "codec" => let (m, s, t) := GoRes.Driver.Codec.run args; (st, m ++ "\t" ++ s ++ "\t" ++ t)
+    | "getreq" => let (m, s, t) := GoRes.Driver.GetReq.run args; (st, m ++ "\t" ++ s ++ "\t" ++ t)
     | "reqload" => let (m, s, t) := GoRes.Driver.ReqLoad.run args; (st, m ++ "\t" ++ s ++ "\t" ++ t)
     | "sendreq" => let (m, s, t) := GoRes.Driver.SendReq.run args; (st, m ++ "\t" ++ s ++ "\t" ++ t)
     | "qe" =>
